@@ -249,7 +249,7 @@ Proof.
   rewrite H. reflexivity.
 Qed.
 
-(** formula 6 reads `w**-2`; over the reals that is 1/w^2 *)
+(** formula 6 reads `1 / w**2` (since the repair of `w**-2`, which raised for integer-typed wavelengths) *)
 Theorem formula_6_spec : forall (c : list R) (w : R),
   k_formula_6 ROps w c = spec_formula_6 (O := ROps) c w.
 Proof.
@@ -257,10 +257,7 @@ Proof.
   unfold k_formula_6, spec_formula_6, sq, one. rewrite nthZ_head.
   change (c1 :: rest) with ([c1] ++ rest).
   change 1%Z with (Z.of_nat (length [c1])) at 2.
-  rewrite (sum_pairs_ext (O := ROps) (fun a b => div (o := ROps) a (sub (o := ROps) b (div (o := ROps) (ofZ 1) (mul (o := ROps) w w))))
-             (fun a b => div (o := ROps) a (sub (o := ROps) b (@powZ ROps w (-2))))).
-  2:{ intros a b. unfold powZ. change (Z.to_nat (- -2)) with 2%nat. cbn. rops. replace (w * (w * 1))%R with (w * w)%R by ring. reflexivity. }
-  rewrite <- (pair_loop (O := ROps) (fun a b => div (o := ROps) a (sub (o := ROps) b (@powZ ROps w (-2)))) [c1] rest (add (o := ROps) (ofZ 1) c1)).
+  rewrite <- (pair_loop (O := ROps) (fun a b => div (o := ROps) a (sub (o := ROps) b (div (o := ROps) (ofZ 1) (mul (o := ROps) w w)))) [c1] rest (add (o := ROps) (ofZ 1) c1)).
   unfold pair_body.
   match goal with |- match ?A with _ => _ end = ?B => change B with A; destruct A; reflexivity end.
 Qed.
